@@ -82,6 +82,10 @@ def boolConst (b : Bool) : Expr := .const 0 "bool" (if b then "True" else "False
 generated names and function names are identifiers). -/
 def pyRepr (s : String) : String := "'" ++ s ++ "'"
 
+/-- Python's `s.startswith(p)` (code-point prefix).  Written over `List Char` so that it evaluates in the
+kernel (`decide`) as well as natively. -/
+def startsWith (s p : String) : Bool := p.toList.isPrefixOf s.toList
+
 /-! ### `str(QN)` of an expression (`qual_names.QnResolver`)
 
 Name → id; Attribute → parent.attr when the value has a QN; Subscript → parent[sub] when the slice is
